@@ -384,7 +384,50 @@ def bits_at(bytes_, off, n):
     return [(bytes_[(off + i) // 8] >> (7 - (off + i) % 8)) & 1 for i in range(n)]
 
 
-PAD_TYPES = [pg.U, pg.BIT, pg.word(1), pg.S(pg.U, pg.word(1)), pg.P(pg.BIT, pg.word(2)), pg.word(3), pg.P(pg.word(3), pg.BIT)]
+PAD_TYPES = [pg.U, pg.BIT, pg.word(1), pg.S(pg.U, pg.word(1)), pg.P(pg.BIT, pg.word(2)), pg.word(3), pg.P(pg.word(3), pg.BIT),
+             pg.word(2), pg.P(pg.word(1), pg.word(2)), pg.P(pg.P(pg.BIT, pg.word(1)), pg.word(2))]   # widths 0 1 2 3 5 8 9 4 6 7
+
+
+def typed_copy_programs():
+    """programs `pair iden A : T -> T * 1` for T = a word 2^(2^n) or a product of two words, where A : T -> 1 is an
+    anchor (one `case` per bit) that fixes T by inference without writing anything: the output is a copy of the input.
+    Returns [(node table, T)] with widths 1 2 3 4 5 6 8 9 10 12 16 17 18 20 24."""
+    out = []
+
+    def anchor(nodes, n):
+        nodes.append(("iden",))
+        nodes.append(("unit",))
+        nodes.append(("pair", len(nodes) - 2, len(nodes) - 1))
+        pi = len(nodes) - 1
+        nodes.append(("unit",))
+        nodes.append(("case", len(nodes) - 1, len(nodes) - 1))
+        nodes.append(("comp", pi, len(nodes) - 1))
+        a = len(nodes) - 1
+        for _ in range(n):
+            nodes.append(("take", a))
+            nodes.append(("drop", a))
+            nodes.append(("pair", len(nodes) - 2, len(nodes) - 1))
+            a = len(nodes) - 1
+        return a
+
+    shapes = [(n,) for n in range(0, 5)] + [(0, 1), (0, 2), (1, 2), (0, 3), (1, 3), (2, 3), (0, 4), (1, 4), (2, 4), (3, 4)]
+    for sh in shapes:
+        nodes = []
+        if len(sh) == 1:
+            a = anchor(nodes, sh[0])
+            ty = pg.word(sh[0])
+        else:
+            a1 = anchor(nodes, sh[0])
+            a2 = anchor(nodes, sh[1])
+            nodes.append(("take", a1))
+            nodes.append(("drop", a2))
+            nodes.append(("pair", len(nodes) - 2, len(nodes) - 1))
+            a = len(nodes) - 1
+            ty = pg.P(pg.word(sh[0]), pg.word(sh[1]))
+        nodes.append(("iden",))
+        nodes.append(("pair", len(nodes) - 1, a))
+        out.append((pg.compact_prog(nodes), ty))
+    return out
 
 
 def make_execv_case(cid, prog, arrows, cmrs, inp, padty, padbits, jet_ids, costs, prof=0, meta=None):
@@ -606,6 +649,20 @@ def template_programs(rng, count_disc=6):
     out += aligned_copy_programs(rng, (1, 2, 4, 9) if count_disc <= 6 else (1, 2, 3, 4, 5, 8, 9, 16, 32, 33))
     out += guard_after_write_programs(rng, count_disc <= 6)
     out += guard_after_copy_programs(rng, count_disc <= 6)
+    # dirty memory: the same program after scratch work that filled 512 cells with ones and released them
+    # (`comp (comp <word of 512 ones> unit) P`): a primitive that ORs into stale cells instead of writing them shows.
+    # Every program with a disconnect (its CMR is written byte-wise), every fourth of the others.
+    dirty = []
+    for i, n in enumerate(out):
+        if any(x[0] == "disc" for x in n) or i % 4 == 0:
+            m = list(n)
+            body = len(m) - 1
+            m.append(("word", 9, [1] * 512))
+            m.append(("unit",))
+            m.append(("comp", len(m) - 2, len(m) - 1))
+            m.append(("comp", len(m) - 1, body))
+            dirty.append(m)
+    out += dirty
     return [pg.compact_prog(n) for n in out]
 
 
